@@ -45,8 +45,8 @@ class P(vlib.Prop):
                   "winner of its name; c02_multi_envelope_minus_clause_refuted shows five of the clauses necessary by replays of F2, F1c, F1 (origin / pinned sibling), F4, F1, F5, F1b. Conflict "
                   "entries: c02_conflict_validator_decides, c02_conflict_free_refuted (finding C02-F7), c02_conflict_entries_forward_partial and c02_disqualified_never_chosen (entries are "
                   "honoured forward). c02_disqualify_conflicts_exact, c02_conflicting_version_table, c02_versioned_provide_excludes_other_providers, c02_pick, c02_selected_monotone state what "
-                  "disqualifyConflicts / conflictingVersion / pick guarantee, and c02_translated_functions_are_the_model ties exactly these three functions to the Go text (goextract translates "
-                  "them statement by statement on every run). Earlier: theorems c02_nodup, c02_members_from_universe, c02_failure_is_error, c02_termination, c02_no_panic hold for every universe, world and initial disqualification set "
+                  "disqualifyConflicts / conflictingVersion / pick guarantee, and c02_translated_functions_are_the_model + c02_translated_constrain_is_the_model tie exactly these FOUR functions "
+                  "(constrain too: c02_code_constrain_covers) to the Go text (goextract translates them statement by statement on every run). Earlier: theorems c02_nodup, c02_members_from_universe, c02_failure_is_error, c02_termination, c02_no_panic hold for every universe, world and initial disqualification set "
                   "(unbounded) of an executable model of repo.go + filterPackages; c02_validator_decides proves the validator that is run on the "
                   "implementation's results; c02_closed is REFUTED by five kernel-checked witnesses (findings C02-F1..F5, each replayed on the real code) and "
                   "c02_closed_partial proves that INSIDE the envelope (no install_if, no dependency on a self-provided name, one provider per name, version operators only on "
@@ -57,10 +57,10 @@ class P(vlib.Prop):
                   "dependency closure inside the envelope is proved of the model and, independently, checked per implementation output by the verified validator "
                   "(any failure there is a VIOLATION), likewise inside the wider envelope; conflict entries (!name) are not requirements of Closed but a clause of their own (ConflictFree), "
                   "which the code violates (C02-F7, cf. C09-F6) and honours only forward (proved); several provider NAMES under one virtual remain outside both envelopes; "
-                  "conflictingVersion, pick and disqualifyConflicts are translated from the source and proved equal to the model, the rest of repo.go is modelled by hand; "
+                  "conflictingVersion, pick, disqualifyConflicts and constrain are translated from the source and proved equal to the model, the rest of repo.go is modelled by hand; "
                   "correspondence is differential testing, not proof")
     design_ref = "DESIGN.md 7 C02, Appendix A.1"
     modelled_not_verified = ("newPkgResolver, filterPackages, comparePackages (compare==nil stages), bestPackage, constrain, disqualifyProviders, nextPackage, resolvePackage, getPackageDependencies, GetPackageWithDependencies, GetPackagesWithDependencies "
-                             "are modelled by hand in Model/Resolver.v (conflictingVersion, pick and disqualifyConflicts too, but those three are also translated from the source by goextract and proved equal to the model: Proofs/ResolveGenerated.v); the operator tables, version regexes and enum values they use are regenerated from version.go on every run")
+                             "are modelled by hand in Model/Resolver.v (conflictingVersion, pick, disqualifyConflicts and constrain too, but those four are also translated from the source by goextract and proved equal to the model: Proofs/ResolveGenerated.v); the operator tables, version regexes and enum values they use are regenerated from version.go on every run")
 
 PROP = P()
